@@ -120,6 +120,10 @@ func (p *muxPeer) feeder() {
 
 var muxEager bool
 
+// muxQueue > 0: capacity of every channel's package queue for the next scenario (small: the reader has to
+// wait for slow consumers and must keep the order while it does)
+var muxQueue int
+
 func muxScenario(tr *Tracer, rng *rand.Rand, nchan, msgs, replies, procs int, unknown int) {
 	old := runtime.GOMAXPROCS(procs)
 	defer runtime.GOMAXPROCS(old)
@@ -127,6 +131,9 @@ func muxScenario(tr *Tracer, rng *rand.Rand, nchan, msgs, replies, procs int, un
 	mc := newMemConn()
 	info := newInfo()
 	info.ChannelPackageQueueSize = 64
+	if muxQueue > 0 {
+		info.ChannelPackageQueueSize = muxQueue
+	}
 	conn, err := tds.NewConnWithTransport(context.Background(), mc, info, true)
 	if err != nil {
 		panic(err)
@@ -156,6 +163,9 @@ func muxScenario(tr *Tracer, rng *rand.Rand, nchan, msgs, replies, procs int, un
 			if err := ch.SendPackage(context.Background(), &tds.LanguagePackage{Cmd: cmd}); err != nil {
 				tr.Emit(Ev{"ev": "SendErr", "chan": id, "text": err.Error()})
 				return
+			}
+			if muxQueue > 0 {
+				time.Sleep(15 * time.Millisecond) // a slow consumer: the answers pile up in front of the small queue
 			}
 			for got, dones := 0, 0; got < replies || dones < replies; {
 				ctx, cancel := context.WithTimeout(context.Background(), 4*time.Second)
@@ -284,7 +294,16 @@ func muxMain(args []string) error {
 		}
 		procs := []int{1, 2, 4, 16}[rng.Intn(4)]
 		muxEager = i == 1 || rng.Intn(3) == 0
-		muxScenario(tr, rng, nchan, 2+rng.Intn(4), 1+rng.Intn(3), procs, rng.Intn(3))
+		muxQueue = 0
+		replies := 1 + rng.Intn(3)
+		if i == 2 || rng.Intn(4) == 0 {
+			muxQueue = 1 + rng.Intn(3)
+			replies = 6 + rng.Intn(6)
+			if nchan > 4 {
+				nchan = 4
+			}
+		}
+		muxScenario(tr, rng, nchan, 2+rng.Intn(4), replies, procs, rng.Intn(3))
 	}
 	return tr.Close()
 }
